@@ -11,7 +11,8 @@
    start <= end <= usize::MAX.  No sortedness is needed by any theorem below. *)
 From Coq Require Import List NArith ZArith.
 From NV Require Import CramIdx.Crai CramIdx.CraiProofs CramIdx.Multi CramIdx.MultiProofs CramIdx.Transport CramIdx.TransportProofs CramIdx.Bytes CramIdx.BytesProofs.
-From NV Require Import Trunc.Stream Trunc.Cram.
+From NV Require Import Io.Source Io.ReadExact Io.ReadExactProofs Async.ReadExact CramIdx.AsyncQuery CramIdx.AsyncQueryProofs.
+From NV Require Import Trunc.Stream Trunc.Cram Bgzf.Crc32.
 Import ListNotations.
 Open Scope N_scope.
 
@@ -70,8 +71,9 @@ Print Assumptions c19_crai_span_tight.
    occurs in the file (once) -- for every well-formed file, every reference and every region. *)
 Theorem c19_query_equals_scan :
   forall pos f es r lo hi,
-    file_ok pos f -> index pos f = Ok es -> query es f r lo hi = scan f r lo hi.
-Proof. exact query_through_index. Qed.
+    file_ok pos f -> index pos f = Ok es ->
+    query_m selected es (single_file f) r lo hi = Ok (scan f r lo hi).
+Proof. exact query_m_single_through_index. Qed.
 Print Assumptions c19_query_equals_scan.
 
 (* History (finding F17, `cram-query-ignores-reference-id`, repaired by 6527417): the old filter
@@ -81,23 +83,53 @@ Print Assumptions c19_query_equals_scan.
 Theorem c19_query_old_equals_scan_outside_f17 :
   forall pos f es r lo hi,
     file_ok pos f -> index pos f = Ok es -> ~ f17_class f r lo hi ->
-    query_old es f r lo hi = scan f r lo hi.
-Proof. exact query_old_through_index_outside_f17. Qed.
+    query_m selected_old es (single_file f) r lo hi = Ok (scan f r lo hi).
+Proof. exact query_m_single_old_outside_f17. Qed.
 Print Assumptions c19_query_old_equals_scan_outside_f17.
 
 Theorem c19_query_old_refuted :
-  exists pos f r lo hi, file_ok pos f /\ query_old (index_core pos f) f r lo hi <> scan f r lo hi.
-Proof. exact query_old_equals_scan_refuted. Qed.
+  exists pos f r lo hi, file_ok pos f /\
+    query_m selected_old (index_core pos f) (single_file f) r lo hi <> Ok (scan f r lo hi).
+Proof.
+  destruct query_old_equals_scan_refuted as [pos [f [r [lo [hi [Hok Hne]]]]]].
+  exists pos, f, r, lo, hi. split; [exact Hok|].
+  rewrite (query_m_single_index selected_old pos f r lo hi (proj1 Hok)).
+  intros E. inversion E as [E']. exact (Hne E').
+Qed.
 Print Assumptions c19_query_old_refuted.
 
 (* what the query does, for any record filter [sel]: the filtered records of exactly those slices
    that hold a record of the queried reference, each slice visited once, in file order *)
 Theorem c19_query_characterised :
   forall sel pos f r lo hi, file_ok pos f ->
-    query_gen sel (index_core pos f) f r lo hi =
-    flat_map (fun c => if existsb (on_ref r) (c_recs c) then filter (sel r lo hi) (c_recs c) else []) f.
-Proof. exact query_gen_characterised. Qed.
+    query_m sel (index_core pos f) (single_file f) r lo hi =
+    Ok (flat_map (fun c => if existsb (on_ref r) (c_recs c) then filter (sel r lo hi) (c_recs c) else []) f).
+Proof. exact query_m_single_characterised. Qed.
 Print Assumptions c19_query_characterised.
+
+(* The query of the theorems above is [query_m] of NV.CramIdx.Multi -- the model that selects the
+   slice by the entry's landmark and fails with InvalidData on a landmark that is not a slice --
+   run on the file seen as containers of one slice each ([single_file]).  The earlier one-slice
+   form [query_gen] of NV.CramIdx.Crai (no landmark test) is its instance whenever every entry
+   carries the landmark of the container at its offset, which the entries of [index] do; an entry
+   with another landmark is InvalidData. *)
+Theorem c19_query_single_slice_instance :
+  forall sel es f r lo hi, Forall (lm_agree f) es ->
+    query_m sel es (single_file f) r lo hi = Ok (query_gen sel es f r lo hi).
+Proof. exact query_m_single_instance. Qed.
+Print Assumptions c19_query_single_slice_instance.
+
+Theorem c19_index_entries_carry_container_landmark :
+  forall pos f, layout_ok pos f -> Forall (lm_agree f) (index_core pos f).
+Proof. intros pos f. exact (index_core_lm_agree f pos). Qed.
+Print Assumptions c19_index_entries_carry_container_landmark.
+
+Theorem c19_query_single_slice_bad_landmark :
+  forall sel e t f r lo hi c,
+    opt_eqb (e_rid e) r = true -> find_container (e_off e) f = Some c -> e_landmark e <> c_landmark c ->
+    query_m sel (e :: t) (single_file f) r lo hi = ErrInvalidData.
+Proof. exact query_m_single_bad_landmark. Qed.
+Print Assumptions c19_query_single_slice_bad_landmark.
 
 (* each record once: distinct read names in the file give distinct read names in the answer *)
 Theorem c19_scan_no_duplicates :
@@ -330,6 +362,134 @@ Theorem c19_bytes_index_is_index_of_layout :
 Proof. exact index_of_bytes_is_index_m. Qed.
 Print Assumptions c19_bytes_index_is_index_of_layout.
 
+(* the index entry of a single-reference slice carries what the slice header DECLARES (slice
+   header fields as given: reference id >= 0, alignment start >= 1, alignment span >= 1, which is
+   what ReferenceSequenceContext::try_from accepts): reference = the declared id, start = the
+   declared alignment start, span = the declared alignment span; -1 gives the unmapped entry *)
+Theorem c19_bytes_entry_is_what_slice_header_declares :
+  forall crc file recs es e,
+    index_of_bytes crc file recs = BOk es -> In e es ->
+    exists h body rest src sh rest',
+      cram_parse_container crc (at_ (e_off e) file) = POk (h, body, false) rest /\
+      slice_bytes body (e_landmark e) (e_landmark e + e_slen e) = Some src /\
+      r_slice_header crc src = POk sh rest' /\
+      ((0 <= sh_rid sh)%Z -> (1 <= sh_start sh)%Z -> (1 <= sh_span sh)%Z ->
+         e_rid e = Some (Z.to_N (sh_rid sh)) /\ e_start e = Some (Z.to_N (sh_start sh)) /\
+         e_span e = Z.to_N (sh_span sh)) /\
+      (sh_rid sh = (-1)%Z -> e_rid e = None /\ e_start e = None /\ e_span e = 0).
+Proof. exact entry_fields_are_declared. Qed.
+Print Assumptions c19_bytes_entry_is_what_slice_header_declares.
+
+(* ---- the async reader (NV.CramIdx.AsyncQuery over C16's NV.Async.ReadExact) ------------------ *)
+
+(* [async_queries crc f file codes seeks chunk p0 nrefs es qs]: the queries [qs], one after the
+   other on ONE async reader positioned after the header, over a source that follows the read poll
+   script [codes] (Pending / Ready with at most k bytes) and the seek script [seeks] (one event per
+   AsyncSeek::poll_complete call), read_to_end asking for [chunk] bytes at a time: every entry of
+   the queried reference costs a polled seek (tokio's Seek future), the awaited reads of the
+   container header byte by byte (ITF8/LTF8 through read_u8), its CRC32, the body through
+   take + read_to_end, the landmark test and the slice header blocks of the selected slices.
+   [sync_queries] is the sync reader over C12's scripted source (chunked deliveries, Interrupted)
+   with grouped ITF8/LTF8 reads.  For EVERY poll script, seek script, read_to_end request size and
+   sync delivery script the two return the same answers, error kinds included. *)
+Theorem c19_async_query_equals_sync :
+  forall crc f file codes seeks chunk script p0 nrefs es qs,
+    async_queries crc f file codes seeks chunk p0 nrefs es qs = sync_queries crc f file script p0 nrefs es qs.
+Proof. exact async_queries_equal_sync. Qed.
+Print Assumptions c19_async_query_equals_sync.
+
+Theorem c19_async_query_unmapped_equals_sync :
+  forall crc f file codes seeks chunk script p0 es,
+    async_query_unmapped crc f file codes seeks chunk p0 es = sync_query_unmapped crc f file script p0 es.
+Proof. exact async_query_unmapped_equals_sync. Qed.
+Print Assumptions c19_async_query_unmapped_equals_sync.
+
+(* both are the script-free query over the bytes *)
+Theorem c19_async_query_closed_form :
+  forall crc f file codes seeks chunk p0 nrefs es qs,
+    async_queries crc f file codes seeks chunk p0 nrefs es qs
+    = map (fun q => query_region_p crc f file nrefs es (fst (fst q)) (snd (fst q)) (snd q)) qs.
+Proof. exact async_queries_closed. Qed.
+Print Assumptions c19_async_query_closed_form.
+
+Theorem c19_async_query_unmapped_closed_form :
+  forall crc f file codes seeks chunk p0 es,
+    async_query_unmapped crc f file codes seeks chunk p0 es = query_unmapped_p crc f file es.
+Proof. exact async_query_unmapped_closed. Qed.
+Print Assumptions c19_async_query_unmapped_closed_form.
+
+(* the ingredients: (1) a read program run over ANY reader that behaves like some delivery of
+   the bytes returns what it returns on the bytes, whatever the schedule and whatever sizes
+   read_to_end asks for *)
+Theorem c19_read_program_schedule_independent :
+  forall (S : Type) (rd : reader S) (Rep : S -> list N -> nat -> Prop),
+    simulates rd Rep ->
+    forall (req : nat -> nat) (fuelf : S -> nat -> nat),
+    (forall s d m n, Rep s d m -> (m + n < fuelf s n)%nat) ->
+    forall (A : Type) (p : prog A) s d m, Rep s d m ->
+    exists s' d' m', run_rd rd req fuelf p s = (rr_of (run_pure p d), s')
+      /\ Rep s' d' m' /\ (forall a r, run_pure p d = POk a r -> d' = r).
+Proof. intros S rd Rep Hsim req fuelf Hfuel A p s d m HR. exact (run_rd_spec rd Rep Hsim req fuelf Hfuel A p s d m HR). Qed.
+Print Assumptions c19_read_program_schedule_independent.
+
+(* (2) the byte-by-byte ITF8/LTF8 reads of the async reader frame the same container as the
+   grouped reads of the sync reader, on every byte string *)
+Theorem c19_async_byte_reads_equal_grouped_reads :
+  forall crc d, run_pure (p_read_container crc true) d = run_pure (p_read_container crc false) d.
+Proof. exact p_read_container_gran. Qed.
+Print Assumptions c19_async_byte_reads_equal_grouped_reads.
+
+(* (3) tokio's Seek future over a source whose poll_complete may return Pending at every call
+   -- also the call made before start_seek -- is Ready with the source AT the target, for every
+   Pending script *)
+Theorem c19_async_seek_lands :
+  forall sc fuel c off, (length sc < fuel)%nat ->
+    exists sc', seek_await fuel (mkSk c None) (Some off) sc = Some (off, mkSk off None, sc').
+Proof. exact seek_await_lands. Qed.
+Print Assumptions c19_async_seek_lands.
+
+(* The byte-level query is the layout-level query of the multi-slice section: when the reader's
+   program frames every container of the layout at its offset ([cont_read]: header CRC verified,
+   body read, the stored landmarks are the layout's, every slice starts with a slice header
+   block), the query over the bytes returns what [query_m] returns, error kinds included. *)
+Theorem c19_bytes_query_is_layout_query :
+  forall crc file f pos es r lo hi,
+    mlayout_ok pos f -> Forall (cont_read crc file) f ->
+    Forall (fun e => exists c, In c f /\ e_off e = m_off c) es ->
+    query_p crc f file es r lo hi = lift_q (query_m selected es f r lo hi).
+Proof. exact query_p_is_query_m. Qed.
+Print Assumptions c19_bytes_query_is_layout_query.
+
+(* hence the async reader's region query, under every poll script, returns exactly the records a
+   scan keeps (on the named reference, intersecting the region, file order, each once) *)
+Theorem c19_async_query_equals_scan :
+  forall crc f file pos es codes seeks chunk p0 nrefs r lo hi,
+    mfile_ok pos f -> index_m pos f = Ok es -> Forall (cont_read crc file) f ->
+    (r <? nrefs) = true ->
+    async_queries crc f file codes seeks chunk p0 nrefs es [(r, lo, hi)]
+    = [AOk (scan_m f r (fst (region_bounds lo hi)) (snd (region_bounds lo hi)))].
+Proof. exact async_query_equals_scan. Qed.
+Print Assumptions c19_async_query_equals_scan.
+
+(* stated, not proved: the same for query_unmapped (needs the container loop of the records
+   stream followed through the layout), and the reader's container program = C13's framing
+   parser (which would turn [cont_read] into BytesProofs.cont_at, a consequence of
+   [mfile_of_bytes] succeeding) *)
+Definition c19_async_query_unmapped_equals_scan_full_statement : Prop :=
+  forall crc f file pos es codes seeks chunk p0,
+    mfile_ok pos f -> index_m pos f = Ok es -> Forall (cont_read crc file) f ->
+    async_query_unmapped crc f file codes seeks chunk p0 es
+    = AOk (filter unplaced_flagged (flat_map m_recs f)).
+
+Definition c19_container_program_is_framing_parser_full_statement : Prop :=
+  forall crc d,
+    run_pure (p_read_container crc false) d
+    = match cram_parse_container crc d with
+      | POk (h, body, eof) r =>
+          POk (h, N.of_nat (length d - length r) - N.of_nat (length body), body, eof) r
+      | PErr e => PErr e
+      end.
+
 (* ---- non-vacuity ------------------------------------------------------------------------- *)
 
 (* three containers: a single-reference slice, a multi-reference slice with an unmapped record,
@@ -355,17 +515,20 @@ Example c19_example_index :
        mkentry None None 0 1452 170 230 ].
 Proof. vm_compute. reflexivity. Qed.
 
+Definition c19_names (x : result (list rec)) : option (list N) :=
+  match x with Ok l => Some (map rname l) | _ => None end.
+
 Example c19_example_query :
-  map rname (query (index_core 300 c19_example_file) c19_example_file 0 30 41) = [1; 2] /\
-  map rname (query (index_core 300 c19_example_file) c19_example_file 0 1 50) = [0; 1; 2] /\
-  map rname (query (index_core 300 c19_example_file) c19_example_file 2 9 9) = [3; 4] /\
-  query_region 3 (index_core 300 c19_example_file) c19_example_file 1 None None = Ok [] /\
-  query_region 3 (index_core 300 c19_example_file) c19_example_file 3 None None = ErrInvalidInput.
+  c19_names (query_m selected (index_core 300 c19_example_file) (single_file c19_example_file) 0 30 41) = Some [1; 2] /\
+  c19_names (query_m selected (index_core 300 c19_example_file) (single_file c19_example_file) 0 1 50) = Some [0; 1; 2] /\
+  c19_names (query_m selected (index_core 300 c19_example_file) (single_file c19_example_file) 2 9 9) = Some [3; 4] /\
+  query_region_m 3 (index_core 300 c19_example_file) (single_file c19_example_file) 1 None None = Ok [] /\
+  query_region_m 3 (index_core 300 c19_example_file) (single_file c19_example_file) 3 None None = ErrInvalidInput.
 Proof. vm_compute. repeat split; reflexivity. Qed.
 
 (* the old filter also returned r3 and r4 of reference 2 for reference 0, region 1..50 *)
 Example c19_example_f17 :
-  map rname (query_old (index_core 300 c19_example_file) c19_example_file 0 1 50) = [0; 1; 2; 3; 4]
+  c19_names (query_m selected_old (index_core 300 c19_example_file) (single_file c19_example_file) 0 1 50) = Some [0; 1; 2; 3; 4]
   /\ map rname (scan c19_example_file 0 1 50) = [0; 1; 2].
 Proof. vm_compute. split; reflexivity. Qed.
 
@@ -439,4 +602,27 @@ Qed.
 Example c19_example_query_unmapped :
   query_unmapped (flat_map mspec_entries c19_example_ufile) c19_example_ufile
   = Ok [mkrec 3 None 0 0 true; mkrec 4 None 0 0 true].
+Proof. vm_compute. reflexivity. Qed.
+
+(* the reader's program frames the data container of the noodles-written file above as the
+   layout says (the hypothesis [cont_read] of c19_bytes_query_is_layout_query is satisfiable), and
+   the async query over it under a script with Pending polls, 1..7-byte transfers and Pending
+   seeks returns the record *)
+Definition c19_example_bytes_layout : list mcont :=
+  [mkmcont 155 32 698 [wslice 187 511 [mkrec 0 (Some 0) 20 20 false]]].
+
+Example c19_example_cont_read : Forall (cont_read crc32 c19_example_bytes) c19_example_bytes_layout.
+Proof.
+  constructor; [|constructor].
+  unfold cont_read. do 4 eexists. split; [vm_compute; reflexivity|].
+  split; [vm_compute; reflexivity|]. split; [vm_compute; reflexivity|].
+  constructor; [|constructor]. unfold slice_at. do 3 eexists.
+  split; [vm_compute; reflexivity|]. split; [vm_compute; reflexivity|]. vm_compute. reflexivity.
+Qed.
+
+Example c19_example_async_query :
+  async_queries crc32 c19_example_bytes_layout c19_example_bytes
+    [0; 2; 0; 0; 8; 1; 4; 0; 3]%nat [true; false; true; true] 5 155 1
+    [mkentry (Some 0) (Some 20) 1 155 187 511] [(0, Some 20, Some 20); (0, Some 21, None); (1, None, None)]
+  = [AOk [mkrec 0 (Some 0) 20 20 false]; AOk []; AInvalidInput].
 Proof. vm_compute. reflexivity. Qed.
